@@ -212,6 +212,10 @@ func c06CorpusScripts() map[string][]string {
 			"call packet setAckStatus staticcall " + hx(c06EOA.addr) + " " + hx(c06StaticAddr.Bytes()),
 			"emit " + hx(c06EOA.addr) + " " + hx(c06EmitterAddr.Bytes()),
 			"emit packet " + hx(c06EmitterAddr.Bytes()),
+			"emitmix " + hx(c06EOA.addr) + " gf " + hx(c06EmitterAddr.Bytes()),
+			"emitmix " + hx(c06EOA.addr) + " fgf " + hx(c06EmitterAddr.Bytes()),
+			"emitmix packet gs " + hx(c06EmitterAddr.Bytes()),
+			"emitmix packet fg " + hx(c06EmitterAddr.Bytes()),
 			"spoof agent-send",
 			"evmrestart",
 			"call packet setSequence eoa " + hx(c06EOA.addr),
